@@ -1,14 +1,16 @@
 """C07 — Value order/equality/hash laws and the algebra of the collection filters (DESIGN.md §3 C07)."""
 import json, os, collections
+import concurrent.futures
+from common import sh, LEAN
 
 READY = True
 
 META = {
-    "technique": "Lean 4 proof (Value::cmp = compare on an explicit linearly ordered key for all values incl. floats at bit level; == <=> Equal and == => same hash items outside the bool-vs-number region; algebra of sort/unique/groupby/batch/slice/reverse/min/max for every list and every total preorder) + differential correspondence of the model on all ordered pairs of a boundary value zoo under both map implementations",
+    "technique": "Lean 4 proof (Value::cmp = compare on an explicit linearly ordered key for all values incl. floats at bit level; == <=> Equal and == => same hash items outside the bool-vs-number region; algebra of sort/unique/groupby/dictsort/batch/slice/reverse/min/max/select/in/sum/zip/chain/items/list for every list and every total preorder, keys by attribute paths and composite keys; invalid values, object identity and custom_cmp) + differential correspondence of the model on all ordered pairs of a boundary value zoo and on the filter outputs under three builds of the engine (BTreeMap, IndexMap, unicode), sharded over the cores",
     "category": "proof",
-    "text": "Kernel-checked theorems about a Lean transcription of impl Ord/PartialEq/Hash for Value: cmp_refines_key (cmpV a b = lexicographic compare of explicit token keys, hence reflexive/antisymmetric/transitive/total/congruent) for every value whose numbers are in range - integers of all four widths, floats as 64-bit patterns with int/float comparisons proved exact through the concrete round-to-nearest-even `as f64` and saturating `as int` casts, strings, bytes, sequences, tuples, iterables, maps, plain objects, nested arbitrarily; C07_partial (== <=> cmp = Equal, == => equal hash items) for NaN-free values with BTreeMap-ordered maps outside the region `a bool faces a number`, where C07_counterexample shows the full statement false on the code (true == 1, cmp = Less, hashes differ: a known finding pinned by the existing tests); filter theorems over an arbitrary item type and total preorder. The transcription is tied to /repo by sending every ordered pair of a ~290-value boundary zoo through Value::cmp, == and Hash and through the Lean model (BTreeMap and IndexMap builds), the laws themselves are evaluated directly on the implementation's answers (rank criterion for the total preorder, == vs Equal, == vs hash, template operators / in / dict lookup), and the filter laws on the outputs for all lists of length <= 5 over a 7-value alphabet with every keyword option, long random lists, and batch/slice run lengths against the model.",
+    "text": "Kernel-checked theorems about a Lean transcription of impl Ord/PartialEq/Hash for Value: cmp_refines_key (cmpV a b = lexicographic compare of explicit token keys, hence reflexive/antisymmetric/transitive/total/congruent) for every value whose numbers are in range - integers of all four widths, floats as 64-bit patterns with int/float comparisons proved exact through the concrete round-to-nearest-even `as f64` and saturating `as int` casts, strings, bytes, sequences, tuples, iterables, maps, plain objects, nested arbitrarily; C07_partial (== <=> cmp = Equal, == => equal hash items) for NaN-free values with BTreeMap-ordered maps outside the region `a bool faces a number`, where C07_counterexample shows the full statement false on the code (true == 1, cmp = Less, hashes differ: a known finding pinned by the existing tests); invalid values (total order on (kind, detail) that agrees with == and Hash), plain objects with object identity and a user custom_cmp (== <=> Equal; total order among objects of one type; counterexample across types), the identity short-cut returns the structural answer; filter theorems over an arbitrary item type and total preorder and their instances on values as filters.rs writes them: sort / dictsort / unique / groupby keyed by an attribute, a dotted attribute path with index parts, or several paths (composite key = lexicographic), min / max, select / reject with the comparison tests, in, map literals, sum (= the fold of the C08 integer addition from 0), zip, chain (associative, lengths add, indexing = indexing the concatenation; chained dicts), items <-> dict round trip, list, the pycompat dict.get/keys/values/items and list.count, the sameas test, Value::reverse arm by arm (reverse_counterexample: the RevIter arm is forward - a known finding pinned by test_reverse; reverse_partial for every other arm). Ties to /repo: regenerated tables (kind order, cmp_kind aliases, small-map scan threshold, hash zero kinds, query_len arms, the arms of Value::reverse, which comparison helper every collection filter calls with which flags) and the correspondence: every ordered pair of a ~330-value boundary zoo and of seeded random nested values through Value::cmp, == and Hash and through the Lean model, the laws themselves evaluated directly on the implementation's answers (rank criterion for the total preorder, == vs Equal, == vs hash, template operators / in / dict lookup), the filter laws on the outputs for all lists of length <= 5 over three 7-value alphabets (numbers/strings, strings/bytes, undefined/bool/list/tuple/map/object items) given as list, tuple, lazy iterable, VecDeque, user sequence object, map (its keys), string (its characters), with every keyword option, long random lists, every lookup entry point x 13 map backings x 7 sizes, reverse/first/last/list/length on 52 container shapes (every repr x enumerator variant), and the model-compared filter / sum / zip / chain / items / list / sameas / pycompat cases; all of it under the BTreeMap build and the IndexMap build, the filter streams also under the unicode build (cmp_helper via unicase).",
     "design_ref": "DESIGN.md §3 C07",
-    "level_note": "Trusted: Lean kernel; hand transcription of value/mod.rs (Ord, PartialEq, Hash, cmp_f64*, cmp_uncoercible_numbers), ops.rs (coerce, as_f64), argtypes.rs (integer TryFrom) into MJ/Model/{CmpF64,Value,Cmp}.lean and of filters.rs (batch, slice, sort, unique, groupby, min, max, reverse) into MJ/Model/Coll.lean, validated by the correspondence on the zoo (exhaustive over zoo pairs, not over all values); IEEE-754 semantics of the f64 primitives; Rust's stable sort_by is taken to be the unique stable sort (List.mergeSort), BTreeMap/BTreeSet lookups to find an element iff one compares Equal; object identity short-cuts, custom_cmp and Invalid values are not modelled (their pairs are law-checked only); the filters sum / zip / chain / items / list, the sameas test, dotted attribute paths, multi-attribute sort keys and namespace objects are oracle-checked at most; pycompat dict.get is not reachable (contrib feature off in the harness); under preserve_order (IndexMap) the == / hash theorems do not apply (insertion-order findings).",
+    "level_note": "Trusted: Lean kernel; hand transcription of value/mod.rs (Ord, PartialEq, Hash, cmp_f64*, cmp_uncoercible_numbers, reverse, get_path), ops.rs (coerce, as_f64, contains), argtypes.rs (integer TryFrom) into MJ/Model/{CmpF64,Value,Cmp}.lean and of filters.rs (batch, slice, sort, unique, groupby, dictsort, min, max, reverse, sum, zip, chain, items, list, select/reject), merge_object.rs, tests.rs (sameas, comparison tests), pycompat.rs into MJ/Model/{Coll,CollV,CollX}.lean, validated by the correspondence (exhaustive over the zoo pairs and the enumerated words, not over all values); IEEE-754 semantics of the f64 primitives; Rust's stable sort_by is taken to be the unique stable sort (List.mergeSort), BTreeMap/BTreeSet lookups to find an element iff one compares Equal; invalid values and objects with identity / custom_cmp are modelled at top level only (nested inside containers their pairs are law-checked, not model-compared); a user custom_cmp is assumed to be `compare` on some key (the contract Ord needs; across object types the engine's fallback to renderings is not an order, shown by counterexample); float items of `sum` are outside the model (integer sums are the C08 model); `chain` indexing is modelled for operands of known length; case folding is ASCII in the model (str::to_lowercase / unicase are parameters; the alphabets are ASCII); under preserve_order (IndexMap) the == / hash theorems do not apply (insertion-order findings).",
 }
 
 KINDS = {"u": "Undefined", "n": "None", "t": "Bool", "f": "Bool", "U64": "Number", "I64": "Number", "U128": "Number",
@@ -45,7 +47,7 @@ def parse(enc):
                     return ("list", cls, items)
         if c == "{":
             pos += 1
-            user = enc[pos] in "=@"
+            user = enc[pos] in "=@#"
             if enc[pos] == "@":
                 pos += 6
             elif user:
@@ -150,6 +152,33 @@ def top_kind(t):
     return "Map"
 
 
+def canon(t):
+    """spelling of a value up to the representation of its numbers and strings (1 / 1.0 / U64 1, small / Arc / safe
+    strings): two maps hold `the same entries` when their entries agree in this spelling"""
+    if t[0] == "atom":
+        k, _, txt = t[2].partition(".")
+        try:
+            if k in ("I64", "U64", "I128", "U128"):
+                return "num:%d" % int(txt)
+            if k == "F":
+                bits = int(txt, 16)
+                if (bits & 0x7FFFFFFFFFFFFFFF) < 0x7FF0000000000000:
+                    import struct
+                    x = struct.unpack(">d", struct.pack(">Q", bits))[0]
+                    if x == int(x):
+                        return "num:%d" % int(x)
+                return "flt:" + txt
+            if k in ("Ss", "Sn", "Sf"):
+                return "str:" + txt
+        except (ValueError, OverflowError):
+            pass
+        return t[2]
+    if t[0] == "list":
+        o = {"Seq": "[", "Tuple": "(", "Iterable": "["}[t[1]]
+        return o + ",".join(canon(x) for x in t[2]) + "]"
+    return "{" + ",".join(sorted(canon(k) + ":" + canon(v) for k, v in t[1])) + "}"
+
+
 def first_diff(a, b):
     """kinds of the innermost pair of sub-values at which two encodings first differ"""
     if a[0] == "list" and b[0] == "list" and (a[1] == "Tuple") == (b[1] == "Tuple"):
@@ -160,7 +189,7 @@ def first_diff(a, b):
             return "length"
         return "~".join(sorted([a[1], b[1]]))
     if a[0] == "map" and b[0] == "map":
-        if sorted(unparse(k) + ":" + unparse(v) for k, v in a[1]) == sorted(unparse(k) + ":" + unparse(v) for k, v in b[1]):
+        if sorted(canon(k) + ":" + canon(v) for k, v in a[1]) == sorted(canon(k) + ":" + canon(v) for k, v in b[1]):
             # the same entries: the two maps can only differ in the order they iterate in (insertion
             # order of an IndexMap or of a user-defined map object vs. key order of a BTreeMap)
             return "map-insertion-order"
@@ -175,31 +204,123 @@ def first_diff(a, b):
 
 REV = {"L": "G", "G": "L", "E": "E", "P": "P"}
 LK_ENTRIES = ["get_item", "subscript", "in", "iter-keys", "items", "dictsort", "get_attr", "dot", "get_path", "map-attr",
-              "selectattr", "rejectattr", "groupby", "sort-attr", "unique-attr", "get_item_by_index", "context-var"]
+              "selectattr", "rejectattr", "groupby", "sort-attr", "unique-attr", "get_item_by_index", "context-var",
+              "py-get", "py-keys", "py-items", "attr-filter"]
 # which `Enumerator` variant is behind each container shape of the `rev` stream
 ENUM_OF = {"vec": "Seq", "tuple": "Iter|Seq|Empty", "iter": "Iter", "sized": "Iter", "once": "Iter", "deque": "Seq", "llist": "RevIter",
            "bset": "RevIter", "hset": "Iter", "vmap": "RevKeyValueIter", "hmap": "KeyValueIter", "bstrmap": "RevKeyValueIter",
            "hstrmap": "KeyValueIter", "omap": "Values", "oseq": "Seq", "strkeys": "Str", "empty": "Empty", "plain": "NonEnumerable",
            "string": "str", "safestring": "str", "bytes": "bytes"}
+HINT_ENUM = {"q": "Seq", "v": "Values", "t": "Iter", "r": "RevIter", "k": "KeyValueIter", "j": "RevKeyValueIter", "e": "Empty"}
+
+
+def enum_of(shape):
+    """the `Enumerator` variant behind a container shape of the `rev` stream (`h<cfg>` = a user object, cfg[1] = variant)"""
+    if len(shape) == 5 and shape[0] == "h":
+        return HINT_ENUM.get(shape[2], "?")
+    return ENUM_OF.get(shape, "?")
+
+
+# how many processes each part of the harness is split into (every part is self-contained)
+PARTS = ["zoo", "tpl", "flist", "flistB", "long", "rev", "lk", "rand", "hint", "fv", "runs", "xf"]
+SHARDS = {"quick": {"zoo": 2, "tpl": 2, "flist": 8, "flistB": 4, "long": 6, "rev": 1, "lk": 2, "rand": 1, "hint": 2, "fv": 2, "runs": 1, "xf": 2},
+          "thorough": {"zoo": 8, "tpl": 16, "flist": 16, "flistB": 8, "long": 16, "rev": 4, "lk": 4, "rand": 8, "hint": 8, "fv": 12, "runs": 2, "xf": 6}}
+# the parts that exercise `cmp_helper` (the only code of the property behind the `unicode` feature)
+FILTER_PARTS = ["flist", "flistB", "long", "fv"]
+MODEL_STREAMS = ("val", "pair", "rval", "rpair", "fa", "fv", "batch", "slicef")
+
+
+def run_part(r, exe, mode, part, i, n):
+    """one shard of one part through the harness and, for the streams the model speaks about, the Lean driver"""
+    import time as _time
+    t0 = _time.time()
+    rc, out, err = r.harness(exe, ["gen", r.tier, part], env={"C07_MODE": mode, "C07_SHARD": f"{i}/{n}"})
+    if rc != 0:
+        return {"err": f"harness c07 gen {part} shard {i}/{n} exited {rc}: {err[-300:]}", "lines": [], "model": {}, "part": part, "secs": 0}
+    lines = out.splitlines()
+    drv_lines = [l for l in lines if l.split(" ", 1)[0] in MODEL_STREAMS or l.startswith("lk vm ")]
+    model_of = {}
+    if drv_lines:
+        rc2, out2, err2 = sh([os.path.join(LEAN, ".lake", "build", "bin", "drive_c07"), "index" if mode == "index" else "btree"],
+                             inp="\n".join(drv_lines) + "\n", timeout=3000)
+        model = out2.splitlines()
+        if rc2 != 0 or len(model) != len(drv_lines):
+            return {"err": f"model driver output does not line up with the harness cases of part {part} shard {i}/{n} (rc {rc2}: {err2[-200:]})",
+                    "lines": lines, "model": None, "part": part, "secs": _time.time() - t0}
+        for dl, ml in zip(drv_lines, model):
+            model_of[dl.split("\t")[0]] = ml.split("\t")[1] if "\t" in ml else "bad-line"
+    return {"err": None, "lines": lines, "model": model_of, "part": part, "secs": _time.time() - t0}
+
+
+SUM_INTS = {"0": 1, "2": 2, "9": 0, "c": 2 ** 128 - 1, "e": -3, "f": 2 ** 64, "g": 2 ** 63 - 1, "h": 2 ** 127 - 1}
+
+
+def xf_expect(f):
+    """what the defining law of a builtin says for an `fv` case, computed from the case text alone (the letters
+    of the words stand for pairwise distinguishable values): zip = item i of every operand until the shortest ends,
+    chain = the concatenation (its length known when every operand's is, `[i]` = item i), list = the items,
+    sum = the exact integer sum or an error.  None where the law needs the map / equality semantics."""
+    w = lambda x: "" if x == "-" else x
+    k = f[1]
+    if k == "sum":
+        acc = 0
+        for ch in w(f[2]):
+            if ch not in SUM_INTS or not (-2 ** 127 <= SUM_INTS[ch] < 2 ** 127):
+                return "err:InvalidOperation"
+            acc += SUM_INTS[ch]
+            if not (-2 ** 127 <= acc < 2 ** 127):
+                return "err:InvalidOperation"
+        return f"ok:{acc}"
+    if k in ("zip", "zip3"):
+        ws = [w(x) for x in f[2:]]
+        n = min(len(x) for x in ws)
+        known = str(n) if ws[1] == "" else "-"      # (the second operand is a lazy iterable: length known only when empty)
+        return "ok:" + ",".join("".join(x[i] for x in ws) for i in range(n)) + f" len={known} tuples=1"
+    if (k == "chain" and f[2] in ("seq", "tuple", "mixed")) or k == "chain3":
+        kind, ws = (f[2], [w(x) for x in f[3:]]) if k == "chain" else ("seq", [w(x) for x in f[2:]])
+        allw = "".join(ws)
+        ln = "-" if (kind == "mixed" and ws[0] != "") else str(len(allw))
+        return f"ok:{allw} kind={'Iterable' if kind == 'mixed' else 'Seq'} len={ln} idx={allw}u"
+    if k == "list" and f[2] in ("seq", "tuple", "iter", "once", "oseq", "omap", "str"):
+        return "ok:" + w(f[3])
+    if k == "list" and f[2] in ("undef", "none"):
+        return "ok:"
+    if k == "sameas":
+        # identity for objects; for the rest: same kind, both integers or both not, and == (letters: 7 = NaN,
+        # a = a list, 3 / d = the string "a" plain / safe; all other letters differ in value, kind or integer-ness)
+        a, b, inst = f[2], f[3], f[4]
+        if inst == "same":
+            return "0" if a == "7" else "1"
+        return "1" if ((a == b and a not in "7a") or {a, b} == {"3", "d"}) else "0"
+    return None
+
+
+SPEC_KINDS = {"sort", "sortm", "sortp", "sorti", "dictsort", "unique", "uniquep", "groupby", "groupbyp", "sel", "cin", "lit"}
+
+
+def strip_labels(groups):
+    """`ok:label:ids;label:ids` -> the member lists only (which key spelling labels a group is not a law)"""
+    if not groups.startswith("ok:"):
+        return groups
+    return ";".join(g.split(":", 1)[-1] for g in groups[3:].split(";"))
+
+
 TPL_NAMES = ["lt", "eq", "in-list", "in-map", "lookup", "le", "gt", "in-map2", "lookup2", "unique", "select-eq"]
 
 
-def check_mode(r, mode, exe):
-    feats = "default(BTreeMap)" if mode == "btree" else "preserve_order(IndexMap)"
-    rc, out, err = r.harness(exe, ["gen", r.tier], env={"C07_MODE": mode})
-    if rc != 0:
-        r.broken.append(f"harness c07 [{feats}] exited {rc}: {err[-300:]}")
-        return
-    lines = out.splitlines()
-    drv_lines = [l for l in lines if l.split(" ", 1)[0] in ("val", "pair", "rval", "rpair", "fa", "fv", "batch", "slicef") or l.startswith("lk vm ")]
-    model = r.driver("drive_c07", "\n".join(drv_lines) + "\n", args=[mode])
-    if model is None or len(model) != len(drv_lines):
-        r.broken.append(f"[{feats}] model driver output does not line up with the harness cases")
-        model = None
-    model_of = {}
-    if model is not None:
-        for dl, ml in zip(drv_lines, model):
-            model_of[dl.split("\t")[0]] = ml.split("\t")[1] if "\t" in ml else "bad-line"
+def check_mode(r, mode, feats, results):
+    """`results`: the outcomes of `run_part` for this build, in part / shard order"""
+    lines, model_of, model_ok = [], {}, True
+    for res in results:
+        if res["err"]:
+            r.broken.append(f"[{feats}] " + res["err"])
+        lines += res["lines"]
+        if res["model"] is None:
+            model_ok = False
+        else:
+            model_of.update(res["model"])
+    model = model_of if model_ok else None
+    seen_once = set()
 
     class Zoo:
         def __init__(self, tag):
@@ -207,7 +328,7 @@ def check_mode(r, mode, exe):
     zoo = Zoo("")
     batches = {}
     vals, trees, M, tpl, skip_vals = zoo.vals, zoo.trees, zoo.M, zoo.tpl, zoo.skip
-    sfx = "" if mode == "btree" else "[preserve_order]"
+    sfx = {"btree": "", "index": "[preserve_order]"}.get(mode, "[" + mode + "]")
 
     def pv(i, j):
         return f"pairv {vals[i]} {vals[j]}"
@@ -244,7 +365,7 @@ def check_mode(r, mode, exe):
             md = dict(x.split("=") for x in mf[1:]) if len(mf) > 1 else {}
             if mf[0] != rf[0]:
                 r.model_disagreement(cv, res, m)
-            elif md.get("len") != d.get("len") and d.get("len", "-") not in ("?", "-") and enc_.startswith("{") and enc_[1:2] not in ("=", "@"):
+            elif md.get("len") != d.get("len") and d.get("len", "-") not in ("?", "-") and enc_.startswith("{") and enc_[1:2] not in ("=", "@", "#"):
                 # the map does not hold the pairs it was built from (keys pairwise non-Equal under Ord)
                 z.skip.add(i)
                 ks = [k for k, _ in z.trees[i][1]]
@@ -339,6 +460,11 @@ def check_mode(r, mode, exe):
         case, res = line.split("\t", 1)
         f = case.split()
         st = f[0]
+        if st in ("val", "fa") or (st == "rval" and f[1] == "h"):
+            # every shard of a part repeats the lines that register its values with the driver
+            if case in seen_once:
+                continue
+            seen_once.add(case)
         r.hist["stream" + sfx][st] += 1
         if st == "val":
             handle_val(zoo, int(f[1]), f[2], res, case)
@@ -362,9 +488,22 @@ def check_mode(r, mode, exe):
                 r.oracle_failure(case, f"[{feats}] {f[1]} {what}: the engine answers {res.replace(' MISMATCH ', ' but Value::cmp / == directly give ')}",
                                  f"filter:{f[1]}:{what}")
                 res = res.split(" MISMATCH ")[0]
+            want = xf_expect(f)
+            if f[1] == "items" and res.startswith("ok:") and not res.endswith(" tuples=1"):
+                r.oracle_failure(case, f"[{feats}] items: the pairs are not (key, value) tuples: {res[:200]}", "builtin:items:law")
+            if want is not None and res != want and res != "panic":
+                r.oracle_failure(case, f"[{feats}] {f[1]}: the engine answers {res[:200]} but the defining law gives {want[:200]}", f"builtin:{f[1]}:law")
             m = model_of.get(case)
             if m is not None and m != res:
                 r.model_disagreement(case, res, m)
+                # where the laws of the property leave exactly one output (the stable sorted permutation, the first
+                # occurrences, the partition of the stable sort, the items passing a test, containment, the map a
+                # literal builds), the Lean function proved to meet them is the oracle
+                if f[1] in SPEC_KINDS and res != "panic":
+                    a, b = (strip_labels(res), strip_labels(m)) if f[1].startswith("groupby") else (res, m)
+                    if a != b:
+                        r.oracle_failure(case, f"[{feats}] {f[1]}: the engine answers {res[:200]} but the only output the laws allow is {m[:200]}",
+                                         f"filter:{f[1]}:spec")
         elif st == "pair":
             M[(int(f[1]), int(f[2]))] = res.split()
         elif st == "tpl":
@@ -382,11 +521,11 @@ def check_mode(r, mode, exe):
         elif st == "rev":
             rf = res.split(" ", 2)
             r.count((st, mode, f[1], f[2]), len(f[2]) >= 2 and f[2] != "-", n=int(rf[1]))
-            r.hist["rev-shape"][f[1] + "(" + ENUM_OF.get(f[1], "?") + ")"] += 1
+            r.hist["rev-shape"][f[1] + "(" + enum_of(f[1]) + ")"] += 1
             if rf[0] != "ok":
                 for item in rf[2].split(" || "):
                     head = item.split(" ", 1)[0]           # filter:law
-                    r.oracle_failure(case, f"[{feats}] {f[1]} ({ENUM_OF.get(f[1], '?')}): {item[:300]}", "filter:" + head + ":" + ENUM_OF.get(f[1], "?"))
+                    r.oracle_failure(case, f"[{feats}] {f[1]} ({enum_of(f[1])}): {item[:300]}", "filter:" + head + ":" + enum_of(f[1]))
         elif st == "lk":
             backing, nent, kenc, penc = f[1], f[2], f[3], f[4]
             exp, flags = res.split()
@@ -428,7 +567,8 @@ def check_mode(r, mode, exe):
                 r.model_disagreement(case, res, m)
     n = len(vals)
     if n == 0:
-        r.broken.append(f"[{feats}] harness produced no zoo")
+        if mode in ("btree", "index"):
+            r.broken.append(f"[{feats}] harness produced no zoo")
         return
     r.extra["zoo_size"] = n
 
@@ -485,35 +625,72 @@ def check_mode(r, mode, exe):
 def run(r):
     r.rule = ("all ordered pairs (A[i], B[j]) of two independently built instances of the boundary zoo through Value::cmp, ==, Hash "
               "(the matrix decides antisymmetry, transitivity via the rank criterion, ==<=>Equal, ==>=same hash), the same pairs through the "
-              "template operators < <= > == in and dict lookup; every list of length <=5 over a 7-value alphabet (plain items, items wrapped in "
-              "maps for attribute=, as list/tuple/sized+unsized iterable/VecDeque/dict) through sort/dictsort/unique/groupby/batch/slice/reverse/"
-              "first/last/min/max with all keyword options, plus long random lists; batch/slice run lengths for len<=14, count<=16 and huge counts "
-              "against the Lean model; every lookup entry point (get_item, m[p], in, key iteration, items, dictsort, get_attr, m.name, context "
-              "variable, get_path, map/selectattr/rejectattr/groupby/sort/unique with attribute=, get_item_by_index) on maps of 1, 2, 12, 13, 20 "
-              "entries (both sides of the small-map fast path) holding one of 20 keys and probed with each of the 20, for ValueMap, HashMap<Value,_>, "
-              "BTreeMap/HashMap<String,_>, BTreeMap<Arc<str>,_>, a user Object and a serde-serialized map; run under BTreeMap and IndexMap.  "
+              "template operators < <= > == in and dict lookup; every list of length <=5 over 7-value alphabets (A: numbers / strings / none, "
+              "B: strings next to utf-8 and non-utf-8 bytes, C: undefined / bool / number / list / tuple / map / plain object items; plain items, "
+              "items wrapped in maps for attribute=, given as list / tuple / sized+unsized iterable / VecDeque / user sequence object / map (keys) / "
+              "string (characters) / dict) through sort (no / one / several attributes x reverse x case_sensitive, dotted paths with missing parts) / "
+              "dictsort / unique / groupby (with and without default) / batch / slice / reverse / first / last / min / max with all keyword options, "
+              "plus long random lists; batch/slice run lengths for len<=14, count<=16 and huge counts against the Lean model; every lookup entry "
+              "point (get_item, m[p], in, key iteration, items, dictsort, get_attr, m.name, context variable, get_path, map/selectattr/rejectattr/"
+              "groupby/sort/unique with attribute=, get_item_by_index, m.get(p), m.keys(), m.items(), m|attr(p)) on maps of 1, 2, 8, 9, 12, 13, 20 "
+              "entries (both sides of the two small-map fast paths) holding one of 20 keys and probed with each of the 20, for ValueMap, "
+              "HashMap<Value,_>, BTreeMap/HashMap<String,_>, BTreeMap<Arc<str>,_>, BTreeMap/HashMap<&'static str,_>, the context! map, merged "
+              "contexts (key in the first / last source), a namespace object, a user Object and a serde-serialized map; reverse / first / last / "
+              "list / length on 52 container shapes (std collections, strings, bytes, user objects of every repr x enumerator variant with exact "
+              "and absent size hints); run under BTreeMap and IndexMap, the filter streams also with the `unicode` feature.  "
               "A pair is non-trivial when i != j, a list when it has >=2 items, a lookup case when key and probe differ.  "
-              "Round 3: the zoo also holds the silent undefined, one-shot iterators (rebuilt per operation), user objects of every repr "
-              "(Seq / Map / Plain with custom_cmp), invalid values, NaN / -0.0 / cmp-equal keys in maps; seeded random nested values (depth <=4: "
-              "all scalar kinds incl. random float bit patterns, seq/tuple/iterable/one-shot/user-seq/map/user-map, plus mutated near-copies) in "
-              "batches with every ordered pair of a batch through cmp/==/Hash/PartialOrd and the model; sort / unique / groupby(default) / dictsort / "
-              "select+reject+selectattr+rejectattr with eq ne lt le gt ge / min / max / `in` on seq tuple iterable one-shot user-seq map user-map / "
-              "map literals with repeated keys over a 13-letter alphabet (1, 1.0, 2, 'a', 'A', 'b', none, NaN, -0.0, 0, [1], b'a', u128::MAX) against "
-              "the Lean model output; a second law-checked alphabet mixing strings with UTF-8 and non-UTF-8 bytes.")
+              "The zoo also holds the silent undefined, one-shot iterators (rebuilt per operation), user objects of every repr "
+              "(Seq / Map / Plain with custom_cmp), namespace objects, invalid values, NaN / -0.0 / cmp-equal keys in maps; seeded random nested values "
+              "(depth <=4: all scalar kinds incl. random float bit patterns, seq/tuple/iterable/one-shot/user-seq/map/user-map, plus mutated near-copies) "
+              "in batches with every ordered pair of a batch through cmp/==/Hash/PartialOrd and the model; sort / unique / groupby / dictsort (also by "
+              "paths `p.k`, index paths `0`, composite keys) / select+reject+selectattr+rejectattr with eq ne lt le gt ge / min / max / `in` on seq tuple "
+              "iterable one-shot user-seq map user-map / map literals with repeated keys / sum / zip / chain (sequences, lazy operands, dictionaries) / "
+              "items / list / sameas / pycompat dict.get keys values items, list.count over an 18-letter alphabet against the Lean model output "
+              "(where the laws leave exactly one output, a disagreement with the Lean function is an oracle failure).")
     r.assumptions = ["Rust's slice::sort_by is the unique stable sort for a total preorder (List.mergeSort)",
                      "BTreeMap/BTreeSet find an entry iff its key compares Equal (true when Ord is a total order on the keys present)",
                      "f64 primitives (==, <, trunc, as-casts) follow IEEE-754 / the Rust reference (saturating float->int, round-to-nearest-even int->float)",
                      "values beyond the zoo and the random batches behave like the model (proved for the model for all values)",
-                     "str::to_lowercase in `unique` is a parameter of the model (the theorems hold for every lower-casing function); the driver uses ASCII lower-casing, the alphabets are ASCII",
-                     "object identity short-cuts (is_same_object) only ever return what the structural comparison of a value with itself returns",
+                     "str::to_lowercase in `unique` and unicase in cmp_helper (feature unicode) are parameters of the model (the theorems hold for every lower-casing function); the driver uses ASCII lower-casing, the alphabets are ASCII",
+                     "a user custom_cmp is `compare` on a key of the object and is only consulted for objects of one Rust type; object identity (is_same_object) identifies objects",
                      "batch/slice counts for which `count` list headers cannot be held in memory but can be reserved are outside the quantifier (resource exhaustion, not a panic)"]
-    r.regen_tables(["VALUE_KIND_ORDER", "C07_CMP_KIND_ALIAS", "C07_VALUE_MAP_STR_SCAN_MAX", "C07_HASH_ZERO_KINDS", "C07_QUERY_LEN_ARMS"])
+    r.regen_tables(["VALUE_KIND_ORDER", "C07_CMP_KIND_ALIAS", "C07_VALUE_MAP_STR_SCAN_MAX", "C07_HASH_ZERO_KINDS", "C07_QUERY_LEN_ARMS",
+                    "C07_REVERSE_ARMS", "C07_FILTER_CMP_CALLS"])
     r.lean_prove("MJ.Props.C07", "MJ/Audit/C07.lean", extra_targets=["drive_c07"])
     r.exhaustive = False
-    for mode, feats in (("btree", ()), ("index", ("preserve_order",))):
-        exe = r.cargo_build("c07", features=list(feats)) if feats else r.cargo_build("c07")
-        if exe is None:
+    if r.driver("drive_c07", "", args=["btree"]) is None:      # (builds the driver once; the shards run the binary)
+        return
+    # three builds of the engine: BTreeMap-backed maps, IndexMap-backed maps (`preserve_order`), and the
+    # `unicode` feature (cmp_helper compares through `unicase` there: the filter streams only)
+    builds = [("btree", "default(BTreeMap)", (), PARTS), ("index", "preserve_order(IndexMap)", ("preserve_order",), PARTS),
+              ("unicode", "unicode(unicase)", ("minijinja/unicode",), FILTER_PARTS)]
+    exes = {}
+    for mode, feats, cargo_feats, parts in builds:
+        exes[mode] = r.cargo_build("c07", features=list(cargo_feats)) if cargo_feats else r.cargo_build("c07")
+    shards = SHARDS["thorough" if r.tier == "thorough" else "quick"]
+    import time as _time
+    t_run = _time.time()
+    workers = max(2, min(16, os.cpu_count() or 4))
+    futures = {}
+    with concurrent.futures.ThreadPoolExecutor(max_workers=workers) as pool:
+        for mode, feats, cargo_feats, parts in builds:
+            if exes[mode] is None:
+                continue
+            # (the engine's own map type is chosen by the build; `unicode` runs on the default maps)
+            hmode = "index" if mode == "index" else "btree"
+            futures[mode] = [pool.submit(run_part, r, exes[mode], hmode, part, i, shards[part]) for part in parts for i in range(shards[part])]
+        results = {mode: [f.result() for f in fs] for mode, fs in futures.items()}
+    import time as _time
+    r.extra.setdefault("timing_s", {})["harness+driver(all builds, parallel)"] = round(_time.time() - t_run, 1)
+    slow = collections.Counter()
+    for mode, rs in results.items():
+        for res in rs:
+            slow[f"{mode}:{res['part']}"] = max(slow[f"{mode}:{res['part']}"], round(res["secs"], 1))
+    r.extra["timing_s"]["slowest shard per part"] = dict(slow.most_common(8))
+    for mode, feats, cargo_feats, parts in builds:
+        if mode not in results:
             continue
+        t_mode = _time.time()
         if mode == "index":
             # An IndexMap built from pairs with a Bool key and an ==-equal numeric key (`{true: 2, 1: 1}`)
             # holds one or two entries depending on the random hash state of that map instance (the keys
@@ -528,16 +705,17 @@ def run(r):
                 _plain(case, what, site)
             r.oracle_failure = of
             try:
-                check_mode(r, mode, exe)
+                check_mode(r, mode, feats, results[mode])
             finally:
                 del r.oracle_failure
         else:
-            check_mode(r, mode, exe)
+            check_mode(r, mode, feats, results[mode])
+        r.extra["timing_s"]["laws+correspondence " + mode] = round(_time.time() - t_mode, 1)
 
 
 def replay(r, path):
     d = json.load(open(path))
-    for mode, feats in (("btree", ()), ("index", ("preserve_order",))):
+    for mode, feats in (("btree", ()), ("index", ("preserve_order",)), ("unicode", ("minijinja/unicode",))):
         exe = r.cargo_build("c07", features=list(feats)) if feats else r.cargo_build("c07")
         for case in [d.get("case")] + d.get("more_cases", []):
             if not case:
@@ -553,9 +731,9 @@ def replay(r, path):
             print(f"[{mode}] engine:", out.strip())
             if f[0] == "pairv":
                 inp = f"val 0 {f[1]}\nval 1 {f[2]}\npair 0 1\n"
-                m = r.driver("drive_c07", inp, args=[mode])
+                m = r.driver("drive_c07", inp, args=["index" if mode == "index" else "btree"])
                 print(f"[{mode}] model (cmp eq samehash):", m[-1] if m else None)
             elif f[0] in ("batch", "slicef") or (f[0] == "lk" and f[1] == "vm"):
-                m = r.driver("drive_c07", case + "\n", args=[mode])
+                m = r.driver("drive_c07", case + "\n", args=["index" if mode == "index" else "btree"])
                 print(f"[{mode}] model:", m[-1] if m else None)
     return 0
